@@ -12,8 +12,7 @@ import re
 from vcheck import coq_bytes, coq_list
 
 KNOWN_CLASSES = ("arith_var_holds_expression", "arith_let_quoted_string", "arith_invalid_literal_is_zero",
-                 "arith_error_status_in_expansion", "arith_array_element_assign_panics",
-                 "arith_incdec_operand_not_word")
+                 "arith_error_status_in_expansion", "arith_array_element_assign_lost")
 
 
 def coq_env(pairs):
@@ -200,11 +199,11 @@ META = {
              "bash's constant grammar, arithm = bash_arith (value, final environment, error) whenever bash's evaluation is defined "
              "(no signed overflow, shift counts 0..63) and variables hold integer literals; refuted in general with the witness "
              "x='1+2'; $((x)) (known finding); division/modulo by zero and negative exponents are errors in both; no panic on parser-"
-             "produced trees except the known `++x++` class. Model tied to the code on every run (parse tree, value, error kind, panic, "
+             "produced trees (after the fix for `++x++`). Model tied to the code on every run (parse tree, value, error kind, panic, "
              "final environment, evaluated by vm_compute in the kernel); Spec tied to real bash through a big-integer reference "
              "evaluator; interp vs bash 5.2 search over $(( )), (( )), let, subscripts and for (( ))."),
     "note": ("Trusted: Coq kernel + vm_compute; hand-written models (tie = seeded differential testing); reference evaluator in the "
              "harness; overflow/shift-count cases dropped as the property says. Known findings: variable/let text not evaluated as an "
-             "expression, invalid constants read as 0, $(( )) error leaves status 0, a[i]= inside arithmetic panics, ++x++ panics."),
+             "expression, invalid constants read as 0, $(( )) error leaves status 0, a[i]= inside arithmetic is lost. Fixed: ++x++ panicked."),
     "design_ref": "DESIGN.md 4 C20",
 }
